@@ -199,6 +199,48 @@ func cmdMatch(seed uint64, tier, outdir string, family string) {
 		curBC = buildCorpus(thr, docs)
 		run(curBC, genericInputs(r, docs, nSynIn))
 	}
+	// near ties: two long documents of almost equal length, each matched with a few changed words, so that the two
+	// confidences 1 - d1/k1 and 1 - d2/k2 differ by less than a millionth without being equal; both orders
+	for i := 0; i < 2; i++ {
+		k1, k2, d := 1000+r.intn(400), 0, 1
+		k2 = k1 + 1
+		if i == 1 {
+			k1 = 2000 + r.intn(500)
+			k2 = k1 + 1 + r.intn(2)
+			d = 1 + r.intn(2)
+		}
+		wordOf := func(pfx string, j int) string { // digits are dropped by the tokenizer: letters only
+			w := pfx + "x"
+			for n := j + 26; n > 0; n /= 26 {
+				w += string(rune('a' + n%26))
+			}
+			return w
+		}
+		mkDoc := func(pfx string, k int) []byte {
+			var sb strings.Builder
+			for j := 0; j < k; j++ {
+				sb.WriteString(wordOf(pfx, j))
+				if j%9 == 8 {
+					sb.WriteString("\n")
+				} else {
+					sb.WriteString(" ")
+				}
+			}
+			return []byte(sb.String())
+		}
+		docs := []corpusDoc{{"License", "Alpha", "license.txt", mkDoc("alpha", k1)}, {"License", "Bravo", "license.txt", mkDoc("bravo", k2)}}
+		curThr = 0.9
+		curBC = buildCorpus(0.9, docs)
+		sub := func(t []byte, pfx string, d int) string {
+			s := string(t)
+			for j := 0; j < d; j++ {
+				s = strings.Replace(s, wordOf(pfx, 100+37*j)+" ", "changed ", 1)
+			}
+			return s
+		}
+		a, b := sub(docs[0].text, "alpha", d), sub(docs[1].text, "bravo", d)
+		run(curBC, []input{{"near-tie:ab", []byte(a + "\nunrelated words here\n" + b)}, {"near-tie:ba", []byte(b + "\nunrelated words here\n" + a)}})
+	}
 	// threshold 0 (accepted by NewClassifier): inputs without words
 	z := buildCorpus(0, emb[:3])
 	run(z, []input{{"empty", nil}, {"notice-only", []byte("Copyright (c) 2020 Foo\n")}, {"punct", []byte("-- ** //\n")}, {"self", emb[0].text}})
